@@ -1,0 +1,11 @@
+//go:build verif
+
+package hq
+
+// Contracts for govc (see /verif/DESIGN.md). Comment-only file: it adds no code.
+
+// Stop (C03, assumed): stopping this component does not change the configuration (its effect on
+// everything else is left open).
+//@ func Stop
+//@   opaque
+//@   modifies *!config
